@@ -254,7 +254,7 @@ def sigs(reg):
 
 def plan(tier, seed):
     if tier == "quick":
-        return [{"n": 320} for _ in range(16)]
+        return [{"n": 1000} for _ in range(16)]
     return [{"n": 10000} for _ in range(16)]
 
 
